@@ -830,7 +830,10 @@ class Engine:
             cls = self.repo.cls(v.kind.clsname)
             el = z3.Select(v.arr, i)
             rng = z3.Or(*[self.tag_fn(el) == self.class_id(c) for c in cls.instantiable_subclasses()])
-            ctx.add_axiom(z3.ForAll([i], z3.Implies(z3.And(0 <= i, i < v.length), rng), patterns=[el]))
+            try:
+                ctx.add_axiom(z3.ForAll([i], z3.Implies(z3.And(0 <= i, i < v.length), rng), patterns=[el]))
+            except z3.Z3Exception:  # the array term is not usable as a trigger (e.g. it contains an if-then-else)
+                ctx.add_axiom(z3.ForAll([i], z3.Implies(z3.And(0 <= i, i < v.length), rng)))
         elif isinstance(v, OptV):
             self.assume_wellformed(ctx, v.val)
         elif isinstance(v, RecV):
